@@ -115,6 +115,8 @@ for a, b, c in (('add-child', 'upd-parent', 'rm-sibling'), ('rm-sibling', 'add-c
 def _event_fn(name):
     if name.startswith('abort[') and name not in A.EVENT_BY_NAME:
         A.EVENT_BY_NAME[name] = A.aborted(name[6:-1])
+    if name.startswith('late-raise[') and name not in A.EVENT_BY_NAME:
+        A.EVENT_BY_NAME[name] = A.late_raise(name[11:-1])
     return TX_EVENTS.get(name) or A.EVENT_BY_NAME[name]
 
 
@@ -285,6 +287,8 @@ def run(ctx):
     for pre in ([PRE_STATES[3], PRE_STATES[5]] if ctx.quick else PRE_STATES):
         jobs += [pre + [f'abort[{a}]', e] for a in creators for e in creators]
     jobs += [[f'abort[{a}]', a] for a in names]
+    # application code raising after the commit (post-commit handler): the commit stands, the next one gets the next version
+    jobs += [[f'late-raise[{a}]', e] for a in A.CORE for e in (A.CORE if not ctx.quick else A.CORE[:6])]
     if not ctx.quick:
         jobs += hist.sequences(core, 3)
         jobs += [[t1, t2] for t1 in txs for t2 in txs]
